@@ -43,6 +43,26 @@ def autocommit_fns(f):
     return sorted(out)
 
 
+def closers(f, fns):
+    """ensure_transaction_closed and every AutoCommit method that is a wrapper of it: all of its returns are dominated by a call to a
+    (transitively) closing method on `self` (a helper extracted around the call must not turn the rule into a false alarm)"""
+    out = {ETC}
+    changed = True
+    while changed:
+        changed = False
+        for p in fns:
+            if p in out or "SyncWrapper" in p:
+                continue
+            r = f.fns[p]
+            b = cfg.body(r)
+            cl = [bi for bi, t in b.calls() if callee(t) in out and (b.operand_origin(t["args"][0]) or (0,))[0] == 1 and not [e for e in (b.operand_origin(t["args"][0]) or (0, ()))[1] if e.startswith(".")]]
+            rets = b.returns()
+            if cl and rets and all(any(b.block_dominates(c, r_) for c in cl) for r_ in rets):
+                out.add(p)
+                changed = True
+    return out
+
+
 def doc_calls(b, self_param=1):
     """calls that receive (a reborrow of) self.doc / self.inner.doc"""
     out = []
@@ -73,12 +93,14 @@ def run(ctx):
     ctx.floor("AutoCommit / SyncWrapper functions", len(fns), 120)
     n_hist = 0
     n_closed_sites = 0
+    CL = closers(f, fns)
+    ctx.note("closing methods (ensure_transaction_closed and its wrappers): %s" % sorted(norm_fn(x).split("::")[-1] for x in CL))
     for p in fns:
         if p in EXEMPT_FNS:
             continue
         r = f.fns[p]
         b = cfg.body(r)
-        closes = [bi for bi, t in b.calls() if callee(t) == ETC]
+        closes = [bi for bi, t in b.calls() if callee(t) in CL]
         n_closed_sites += len(closes)
         is_wrapper = "SyncWrapper" in p
         for k, (bi, t, m) in util.ordinal_keys(doc_calls(b), lambda it: "%s|%s" % (norm_fn(p), (callee(it[1]) or "?").split("::")[-1])):
@@ -110,7 +132,7 @@ def run(ctx):
     okc = ctors == {AC + "::sync"}
     if okc:
         sb = ctx.body(AC + "::sync")
-        closes = [bi for bi, t in sb.calls() if callee(t) == ETC]
+        closes = [bi for bi, t in sb.calls() if callee(t) in CL]
         aggs = [bi for bi, blk in enumerate(sb.blocks) for s in blk["st"] if s["rv"]["k"] == "Agg" and s["rv"].get("adt") == "automerge::autocommit::SyncWrapper"]
         okc = all(any(sb.block_dominates(c, a) for c in closes) for a in aggs)
     ctx.ob("R10-wrapper", "SyncWrapper|constructed only by AutoCommit::sync after closing", okc, "", "constructors: %s" % sorted(ctors))
